@@ -261,6 +261,16 @@ class HeapExec(DynExec):
         if not provs:
             # the path condition is unsatisfiable here (a branch that will be pruned): any provider will do
             provs = definers[:1]
+        if len(provs) > 1:
+            # several providers with textually identical definitions (e.g. _groupable_tokens of the bracket and block
+            # classes): any of them is the definition that runs
+            from .core import source
+            dumps = set()
+            for p_ in provs:
+                nd = source().get('%s.%s.%s' % (p_.__module__, p_.__qualname__, name))
+                dumps.add(ast.dump(nd) if nd is not None else id(p_))
+            if len(dumps) == 1:
+                provs = provs[:1]
         if len(provs) != 1:
             raise OutsideSubset('method %s is provided by several classes for this receiver: %s'
                                 % (name, [p_.__name__ for p_ in provs]))
@@ -275,7 +285,8 @@ class HeapExec(DynExec):
             from . import models
             r = models.call_repo(self, q, o, [], {}, st)
             if len(r) != 1:
-                raise OutsideSubset('forking property')
+                from .symex import Forked
+                return Forked(r)
             return r[0][1]
         return fn
 
@@ -1050,6 +1061,32 @@ class HeapExec(DynExec):
             st.lists[c.lid] = (('seg', g),) + tuple(tail)
             bump(st, c.lid)
             return True
+        if isinstance(node, ast.Call) and isinstance(node.func, ast.Name) and node.func.id == 'ENDS_WITH' \
+                and len(node.args) == 2:
+            # ENDS_WITH(C, e): the (havoc'ed) list C is an unknown run of elements followed by the known element e
+            tmp = st.fork()
+            old, self._in_spec = getattr(self, '_in_spec', False), True
+            try:
+                c, e_ = [self.eval1(a, tmp) for a in node.args]
+            finally:
+                self._in_spec = old
+            if isinstance(c, Rec):
+                c = self.getattr(c, 'tokens', st)
+            items = st.lists[c.lid]
+            if not (items and items[-1][0] == 'seg' and isinstance(e_, Rec)) or any(
+                    it[0] == 'el' and isinstance(it[1], Rec) and it[1].oid == e_.oid for it in items):
+                return False
+            # the trailing unknown run (length n >= 1) is an unknown run of n - 1 elements followed by e
+            old_seg = self.segs(st)[items[-1][1]]
+            st.assume(old_seg['len'] >= 1)
+            owner = [Rec(oid, 'Token') for oid, f in st.objs.items()
+                     if isinstance(f.get('tokens'), LRef) and f['tokens'].lid == c.lid]
+            uni = dict(old_seg['uni'])
+            if owner:
+                uni.setdefault('parent', owner[0])
+            g = self.new_seg(st, length=z3.simplify(old_seg['len'] - 1), uni=uni, name='prefix')
+            st.lists[c.lid] = tuple(items[:-1]) + (('seg', g), ('el', e_))
+            return True
         if not (isinstance(node, ast.Call) and isinstance(node.func, ast.Name) and node.func.id == 'ALL'
                 and len(node.args) == 3):
             return False
@@ -1325,6 +1362,17 @@ class HeapExec(DynExec):
                 # a position that provably lies outside the list: the lists cannot be related this way
                 return [(st, False)]
             return out or [(st, False)]
+        if name == 'ENDS_WITH':
+            c, e_ = args
+            if isinstance(c, Rec):
+                c = self.getattr(c, 'tokens', st)
+            n = self.zlen(st, c)
+            if not smt.entails(st.pc, n >= 1):
+                return [(st, False)]
+            out = []
+            for s1, last in self.elem_at(st, c, z3.simplify(n - 1)):
+                out.append((s1, bool(isinstance(last, Rec) and isinstance(e_, Rec) and last.oid == e_.oid)))
+            return out
         if name == 'SAME_ITEMS':
             a, b = args
             return [(st, st.lists[a.lid] == st.lists[b.lid])]
